@@ -128,7 +128,7 @@ def ob_kind_binding(run, oid):
             o.check(len(aggs) == 1 and aggs[0][1]["variant"] == kind, "%s::new|payload-variant" % st, "%s::new signs VotePayload::%s" % (st, kind), b.span, {"variants": [a[1]["variant"] for a in aggs]})
             for (bb, rv, sp, dst) in aggs[:1]:
                 ops = [b.operand_term(x) for x in rv["ops"]]
-                ok = K.mentions_name(ops[0], "slot") and (kind not in HAS_HASH or K.mentions_name(ops[1], "block_hash"))
+                ok = K.mentions_arg(b, ops[0], 1) and (kind not in HAS_HASH or K.mentions_arg(b, ops[1], 2))
                 o.check(ok, "%s::new|payload-fields" % st, "payload built from the constructor's slot%s" % (" and block_hash" if kind in HAS_HASH else ""), sp)
             sg = b.calls_to(A + "crypto::aggsig::SecretKey::sign")
             ok = bool(sg) and any(K.mentions(b.operand_term(c.args[1]), lambda t: t[0] == "agg" and t[1] == VP and t[2] == kind) for c in sg)
@@ -136,7 +136,8 @@ def ob_kind_binding(run, oid):
             # the struct stores the same slot/hash
             for (bb, rv, sp, dst) in b.aggregates(VOTE + st):
                 fm = dict(zip(rv["fields"], [b.operand_term(x) for x in rv["ops"]]))
-                ok = K.mentions_name(fm["slot"], "slot") and (kind not in HAS_HASH or K.mentions_name(fm["block_hash"], "block_hash")) and K.mentions_name(fm["signer"], "signer") and K.mentions_call(fm["sig"], "SecretKey::sign")
+                np_ = 4 if kind in HAS_HASH else 3
+                ok = K.mentions_arg(b, fm["slot"], 1) and (kind not in HAS_HASH or K.mentions_arg(b, fm["block_hash"], 2)) and K.mentions_arg(b, fm["signer"], np_) and K.mentions_call(fm["sig"], "SecretKey::sign")
                 o.check(ok, "%s::new|stores" % st, "stores the same slot/hash, the signer and that signature", sp)
         # payload
         b = prog.body(VOTE + st + "::payload")
@@ -361,7 +362,7 @@ def ob_verify_bytes(run, oid):
     for c in fav:
         g = None
         for a in G.guard_atoms(b, c.bb, prog):
-            if a[0] == "eq" and a[2] is True and any(K.mentions_field(x, "bitmask", "AggregateSignature") for x in a[1]) and any(K.mentions_name(x, "pks") for x in a[1]):
+            if a[0] == "eq" and a[2] is True and any(K.mentions_field(x, "bitmask", "AggregateSignature") for x in a[1]) and any(K.mentions_arg(b, x, 3) for x in a[1]):
                 g = a
         o.check(g is not None, "verify_bytes|length-check", "guarded by self.bitmask.len() == pks.len()", c.span, {"guards": K.show_atoms(prog, b, c.bb)})
         gc = b.operand_term(c.args[1])
